@@ -817,7 +817,10 @@ class EventSource(object):
                     self.leid = eid = value
             elif field == u'retry':  # only ASCII digits else ignore
                 if value.isascii() and value.isdigit():
-                    self.retry = int(value)
+                    try:
+                        self.retry = int(value)
+                    except ValueError as ex:  # more digits than int() converts
+                        pass  # ignore
 
         (yield (eid, ename, edata))
         return
